@@ -19,6 +19,7 @@ from .gitflow import PR
 SHAPE = ['development/4.3', 'development/5.1', 'development/10.0']
 SHAPE_S = ['development/4.3', 'stabilization/5.1.4', 'development/5.1', 'development/10.0']
 SHAPE_H = ['hotfix/4.2.17', 'development/4.3', 'development/5.1']
+SHAPE_M = ['development/4.3', 'development/10.0', 'development/10']
 
 
 def make_job(cls, repo, host, settings, use_queue=True, processed=None):
@@ -51,6 +52,10 @@ def create_configs(tier):
     add(SHAPE, 'hotfix/4.3.17', tags=['4.3.17.0', '4.3.17'])
     add(SHAPE, 'release/4.3')
     add(SHAPE, 'feature/x')
+    # the newest development branch is major-only (development/10 comes after every 10.*)
+    add(SHAPE_M, 'development/10.1', queued=True)       # must refuse: older than development/10
+    add(SHAPE_M, 'development/10.1')
+    add(SHAPE_M, 'development/11.0', queued=True)       # allowed: newest
     for c in (dict(C[0]), dict(C[2])):
         c['reject'] = True
         C.append(c)
